@@ -83,14 +83,26 @@ let run (line : string) : string =
   | "petersen" -> full (d (generalised_petersen (narg 0) (narg 1)))
   | "friendship" -> full (d (friendship (narg 0)))
   | "newdense" ->
-    (* the model is functional: what the caller does to its slice afterwards cannot reach it *)
-    let g = d (new_dense (narg 0) (Some (List.map z_of_int (itoks ())))) in
-    full g ^ " => " ^ full g
+    (* heap model: the caller's slice is buffer 0; after the call the caller overwrites every
+       byte of it exactly as the harness does, and the graph is observed again *)
+    let bytes = itoks () in
+    let h0 = [List.map z_of_int bytes] in
+    let (h1, g) = get (h_new_dense h0 (narg 0) (ni 0)) in
+    let d1 = full (GD (get (h_view h1 g))) in
+    let h2 = List.fold_left (fun h (k, b) -> h_write h (ni 0) (ni k) (z_of_int (if b = 0 then 1 else 0)))
+        h1 (List.mapi (fun k b -> (k, b)) bytes) in
+    d1 ^ " => " ^ full (GD (get (h_view h2 g)))
   | "newdensenil" -> full (d (new_dense (narg 0) None))
   | "newsparse" ->
-    let nb = List.map (fun t -> List.map ni (comma_ints t)) toks in
-    let g = GS (get (new_sparse (narg 0) (Some nb))) in
-    full g ^ " => " ^ full g
+    let n = arg 0 in
+    let nb = List.map comma_ints toks in
+    let h0 = List.map (List.map ni) nb in
+    let (h1, g) = get (h_new_sparse h0 (ni n) (List.init (List.length nb) ni)) in
+    let d1 = full (GS (get (hs_view h1 g))) in
+    let h2 = List.fold_left (fun h (a, l) ->
+        List.fold_left (fun h (k, x) -> hn_write h (ni a) (ni k) (ni ((x + 1) mod n))) h (List.mapi (fun k x -> (k, x)) l))
+        h1 (List.mapi (fun a l -> (a, l)) nb) in
+    d1 ^ " => " ^ full (GS (get (hs_view h2 g)))
   | "newsparsenil" -> full (GS (get (new_sparse (narg 0) None)))
   | "rgraph" ->
     let bits = Array.of_list (itoks ()) in
